@@ -263,13 +263,15 @@ def main() -> int:
                     continue
                 fam = h[0]["fam"]
                 members = fams[fam]
-                # every member type replays every AddChart; longer histories rotate over the members (two of them in thorough)
-                pick = members if len(h) == 1 else [members[(i + k) % len(members)] for k in range(2 if thorough and len(members) > 1 else 1)]
+                # every member type replays every AddChart; longer histories rotate over the members (thorough: two members for the
+                # histories of two actions)
+                pick = members if len(h) == 1 else [members[(i + k) % len(members)]
+                                                   for k in range(2 if thorough and len(members) > 1 and len(h) == 2 else 1)]
                 for m in pick:
                     jobs.append({"id": "%s:%d:%s" % (name, i, m), "h": hh, "shapes": sh, "type": m, "fam": fam, "dkey": name + hkey(h)})
         if thorough:
             # the driver widens counts around the scenarios: 26 / 50 series, hundreds of points
-            wide = [j for k, j in enumerate(jobs) if k % 23 == 0 and len(j["h"]) >= 2 and j["fam"] != "pie"][:600]
+            wide = [j for k, j in enumerate(jobs) if k % 23 == 0 and len(j["h"]) >= 2 and j["fam"] != "pie"][:300]
             for j in wide:
                 hh, sh = [], {}
                 for a in j["h"]:
